@@ -126,6 +126,27 @@ def _lenclass(n):
 # ------------------------------------------------------------------ clause: preemphasis recurrence
 
 
+def _build_pre(case, alias, cls, coeff):
+    """The pre-processor by class, by alias or from a configuration mapping (the routes the command-line tools use)."""
+    from pydrobert.speech.alias import alias_factory_subclass_from_arg
+    from pydrobert.speech.pre import PreProcessor
+
+    route = case.get("route", "class")
+    if route == "reassign":
+        # built with another coefficient, applied once, then given the coefficient by assignment (`coeff` is a documented
+        # public attribute): the next apply uses the current value
+        obj = call("%s(other coeff)" % cls.__name__, cls, abs(coeff) * 0.5 + 0.25)
+        call("apply before coeff is assigned", obj.apply, np.arange(1.0, 9.0))
+        obj.coeff = coeff
+        return obj
+    if route == "alias":
+        return call("PreProcessor.from_alias(%r, coeff)" % alias, PreProcessor.from_alias, alias, coeff)
+    if route == "mapping":
+        return call("alias_factory_subclass_from_arg(PreProcessor, {'name': %r, 'coeff': ...})" % alias,
+                    alias_factory_subclass_from_arg, PreProcessor, {"name": alias, "coeff": coeff})
+    return call("%s(coeff)" % cls.__name__, cls, coeff)
+
+
 def check_preemph(case):
     from pydrobert.speech.pre import Preemphasize
 
@@ -135,7 +156,7 @@ def check_preemph(case):
         vals = vals.astype(vals.dtype.newbyteorder())  # same values, non-native byte order (big-endian PCM read with np.fromfile)
     x, owner = _with_layout(vals, case["layout"])
     owner_before = owner.copy()
-    pre = call("Preemphasize(coeff)", Preemphasize, coeff)
+    pre = _build_pre(case, "preemphasize", Preemphasize, coeff)
     if case.get("other_after"):
         # a second live object with another coefficient: parameters belong to the instance
         other = Preemphasize(coeff * 0.5 + 0.3)
@@ -220,6 +241,7 @@ def preemph_cases():
             "reuse": st.sampled_from([False, False, True]),
             "other_after": st.booleans(),
             "swapped": st.sampled_from([False, False, False, True]),
+            "route": st.sampled_from(["class", "class", "alias", "mapping", "reassign"]),
         }
     )
 
@@ -267,7 +289,7 @@ def check_dither(case):
             "Dither(1).apply(zeros({})) returned shape {} dtype {}", n, getattr(z, "shape", None), getattr(z, "dtype", None))
     z = z.copy()
 
-    d = call("Dither(coeff)", Dither, c)
+    d = _build_pre(case, "dither", Dither, c)
     if case.get("other_after"):
         other = Dither(c * 3.0 + 1.0)  # a second live object with another coefficient
         del other
@@ -333,6 +355,7 @@ def dither_cases():
             "layout": st.sampled_from(LAYOUTS),
             "other_after": st.booleans(),
             "swapped": st.sampled_from([False, False, False, True]),
+            "route": st.sampled_from(["class", "class", "alias", "mapping", "reassign"]),
             "seed": st.integers(0, 2 ** 32 - 1),
             "seed2": st.integers(0, 2 ** 32 - 1),
         }
@@ -400,14 +423,14 @@ def clauses(tier):
         Clause(
             "preemph_recurrence", check_preemph,
             "non-trivial = length >= 2, coeff != 0 and a non-zero predecessor sample; distinct by the whole case",
-            preemph_cases, quick=3800, thorough=150000,
+            preemph_cases, quick=2600, thorough=150000,
             enumerate=preemph_enum, enum_name="preemph_grid_n0-8",
         ),
         Clause(
             "dither_relations", check_dither,
             "non-trivial = length >= 1 and coeff > 0; relations: linear in coeff, signal-independent, identity at 0, "
             "reproducible under numpy.random.seed, in_place equivalent, other seed => other noise (n >= 8)",
-            dither_cases, quick=2400, thorough=90000,
+            dither_cases, quick=1700, thorough=90000,
         ),
         Clause(
             "dither_statistics", check_dither_stats,
